@@ -419,6 +419,22 @@ def soc_members(tier='thorough'):
         a.st(a.le(x, 6.0))
 
     @reg
+    def soc_exp_mean_bound(a):
+        """Exponential-cone constraint in an expectation set: exptset(exp(E(z)) <= 1.2), i.e. E(z) <= log 1.2 (finding 41: such
+        constraints used to be dropped from the ambiguity set)."""
+        p = a.scen(2)
+        x = a.dvar(())
+        z = a.rvar(())
+        F = a.ambiguity()
+        a.supp(F, [0], a.ge(z, -1.0), a.le(z, 3.0))
+        a.supp(F, [1], a.ge(z, 0.0), a.le(z, 4.0))
+        a.expt(F, None, a.le(a.exp(a.Ez(z)), 1.2))      # binding: 1.6146 with it, 1.85 without
+        a.prob(F, a.eq(p, A([0.5, 0.5])))
+        a.minsup(a.E(a.maxof(2.0 * (z - x), 0.5 * (x - z))), F)
+        a.st(a.ge(x, -2.0))
+        a.st(a.le(x, 5.0))
+
+    @reg
     def soc_mean_ball(a):
         """Box supports, the mean of an event constrained to a ball; event-wise decision."""
         p = a.scen(2)
